@@ -1,4 +1,14 @@
+mod graphs;
+mod vect;
 fn main() {
-    eprintln!("C17: check not built yet");
-    std::process::exit(3);
+    let g = graphs::g_f32x4::graph();
+    println!("{} edges\n{}", g.edge_count(), g.adjacency_text());
+    let g = graphs::g_f32x8::graph();
+    println!("{} edges", g.edge_count());
+    let g = graphs::g_f64x2::graph();
+    println!("{} edges", g.edge_count());
+    let g = graphs::g_f64x4::graph();
+    println!("{} edges", g.edge_count());
+    let s = pga::d65_f32();
+    println!("scalar {} edges\n{}", s.edge_count(), s.adjacency_text());
 }
